@@ -1,7 +1,7 @@
 ---------------------------- MODULE Trace_Train ----------------------------
 (* Trace validation for the trainer tool chain: C17 (rewrite rules), C18 (templates and
    interning), C19 (corpus format). *)
-EXTENDS VRewrite, VTemplate, VCorpus, Json, IOUtils, TLCExt
+EXTENDS VRewrite, VMecab, VCorpus, Json, IOUtils, TLCExt
 CONSTANTS Prop
 
 Rec == ndJsonDeserialize(IOEnv.TRACE)
@@ -47,7 +47,18 @@ CorpusEv ==
                     /\ E.lines = MecabLines(E.extra.toks)
                     /\ E.examples = (IF E.extra.toks = <<>> THEN <<>> ELSE <<E.extra.toks>>))))
 
-Next == RewriteEv \/ ExpandEv \/ CorpusEv
+(* C20 *)
+MecabEv ==
+   /\ Is("mecab")
+   /\ LET d == E.d  valid == TableOK(d.rtab) /\ TableOK(d.ltab) /\ ~E.malformed IN
+      /\ A("C20", "bad-id-tables-rejected", ~valid => ~E.ok)
+      /\ A("C20", "well-formed-description-accepted", valid => E.ok /\ E.compiled)
+      /\ (valid /\ E.ok /\ E.compiled =>
+            /\ A("C20", "ids-dense-and-complete", E.nr = Cardinality(Ids(d.rtab)) /\ E.nl = Cardinality(Ids(d.ltab)))
+            /\ A("C20", "cost-is-sum-of-matching-model-lines",
+                 \A r \in 1..(E.nr - 1), j \in 1..(E.nl - 1) : E.costs[j * E.nr + r + 1] = ExpectedCost(d, r, j)))
+
+Next == RewriteEv \/ ExpandEv \/ CorpusEv \/ MecabEv
 Spec == Init /\ [][Next]_l
 Accepted ==
    LET d == TLCGet("stats").diameter IN
